@@ -399,3 +399,69 @@ def _dominators(entry: int, ids: list[int], pred, succ) -> dict[int, set[int]]:
 
 def build(func_node: ast.FunctionDef) -> CFG:
     return CFG(func_node)
+
+
+# ---------------------------------------------------------------------------------------------------------------
+# reaching definitions
+
+def _defs_of_node(n: Node) -> dict[str, ast.AST | None]:
+    """name -> value expression (None when the value is not a plain expression) defined at this node."""
+    out: dict[str, ast.AST | None] = {}
+    a = n.ast
+    if n.kind == "stmt" and a is not None:
+        if isinstance(a, ast.Assign):
+            for t in a.targets:
+                if isinstance(t, ast.Name):
+                    out[t.id] = a.value
+                elif isinstance(t, (ast.Tuple, ast.List)):
+                    for e in ast.walk(t):
+                        if isinstance(e, ast.Name):
+                            out[e.id] = None
+        elif isinstance(a, ast.AnnAssign) and isinstance(a.target, ast.Name) and a.value is not None:
+            out[a.target.id] = a.value
+        elif isinstance(a, ast.AugAssign) and isinstance(a.target, ast.Name):
+            out[a.target.id] = a  # marker: augmented (depends on the previous value and a.value)
+        for x in walk_local(a):
+            if isinstance(x, ast.NamedExpr):
+                out[x.target.id] = x.value
+    elif n.kind == "for":
+        for e in ast.walk(a.target):
+            if isinstance(e, ast.Name):
+                out[e.id] = None
+    elif n.kind in ("if", "while"):
+        for x in ast.walk(a.test):
+            if isinstance(x, ast.NamedExpr):
+                out[x.target.id] = x.value
+    elif n.kind == "with":
+        for it in a.items:
+            if isinstance(it.optional_vars, ast.Name):
+                out[it.optional_vars.id] = None
+    elif n.kind == "except" and getattr(a, "name", None):
+        out[a.name] = None
+    return out
+
+
+class ReachingDefs:
+    """IN sets of (name, defining node id) per CFG node; parameters are definitions at the entry node."""
+
+    def __init__(self, g: CFG, params: list[str] | None = None):
+        self.g = g
+        self.defs = {n.id: _defs_of_node(n) for n in g.nodes}
+        if params:
+            self.defs[g.entry.id] = {p: None for p in params}
+        self.IN: dict[int, frozenset] = {n.id: frozenset() for n in g.nodes}
+        OUT: dict[int, frozenset] = {n.id: frozenset() for n in g.nodes}
+        changed = True
+        while changed:
+            changed = False
+            for n in g.nodes:
+                i = frozenset().union(*[OUT[p] for p, _ in g.pred[n.id]]) if g.pred[n.id] else frozenset()
+                d = self.defs[n.id]
+                o = frozenset((nm, nid) for nm, nid in i if nm not in d) | frozenset((nm, n.id) for nm in d)
+                if i != self.IN[n.id] or o != OUT[n.id]:
+                    self.IN[n.id], OUT[n.id] = i, o
+                    changed = True
+
+    def reaching(self, node_id: int, name: str) -> list[tuple[int, ast.AST | None]]:
+        """[(defining node id, value expr or None)] of ``name`` that reach the *entry* of ``node_id``."""
+        return [(nid, self.defs[nid].get(name)) for nm, nid in self.IN[node_id] if nm == name]
